@@ -63,6 +63,7 @@ type lexer struct {
 	r     io.RuneScanner
 	n     int
 	token chan interface{}
+	done  chan struct{}
 
 	mu     sync.Mutex
 	err    error
@@ -76,6 +77,7 @@ func newLexer(env *ExecEnv, r io.RuneScanner) *lexer {
 		env:    env,
 		r:      r,
 		token:  make(chan interface{}),
+		done:   make(chan struct{}),
 		cancel: make(chan struct{}),
 	}
 	go l.run()
@@ -97,6 +99,7 @@ func (l *lexer) Lex(lval *yySymType) int {
 func (l *lexer) run() {
 	defer func() {
 		close(l.token)
+		close(l.done)
 
 		if e := recover(); e != nil {
 			if _, ok := e.(bailout); !ok {
